@@ -1010,6 +1010,15 @@ func (runInfo *runInfoStruct) runChanStmt(stmt *ast.ChanStmt) {
 		if runInfo.err != nil {
 			return
 		}
+	} else if stmt.OkExpr == nil {
+		// v = <- c on a closed channel: v gets nil, like the receive expression yields
+		runInfo.rv = nilValue
+		runInfo.expr = stmt.LHS
+		runInfo.invokeLetExpr()
+		if runInfo.err != nil {
+			return
+		}
+		runInfo.rv = nilValue
 	} else {
 		runInfo.rv = nilValue
 	}
